@@ -430,6 +430,7 @@ func checkLigationTerms(c *Ctx, rl *ssa.Function, recGos []*ssa.Go) {
 		// the condition
 		if st == holds {
 			var extra []string
+			extraOpaque := false
 			hasPal := false
 			for _, at := range pc.atoms() {
 				s := at.Atom.String()
@@ -443,6 +444,11 @@ func checkLigationTerms(c *Ctx, rl *ssa.Function, recGos []*ssa.Go) {
 					st, why = broken, "the flipped extension is only tried when the forward test "+map[bool]string{true: "fails", false: "succeeds"}[at.Neg]+": a fragment that fits both ways is ligated one way only"
 				default:
 					extra = append(extra, short(s))
+					// only a test on the fragments' sequence TEXT is taken as evidence; a visited set or a depth
+					// bound (which a repair of the termination finding would add) is left undecided
+					if len(opaqueParts(at.Atom, vocabOf(vocab...))) > 0 || !at.Atom.contains(func(x *Term) bool { return x.isField("Sequence") }) {
+						extraOpaque = true
+					}
 				}
 			}
 			switch {
@@ -457,6 +463,8 @@ func checkLigationTerms(c *Ctx, rl *ssa.Function, recGos []*ssa.Go) {
 						st, why = broken, "the extension is spawned under "+short(at.Atom.String())+"; want "+need
 					}
 				}
+			case len(extra) > 0 && !extraOpaque:
+				st, why = broken, fmt.Sprintf("a fragment whose overhang matches is ligated only if additionally %v: compatibility is decided by the overhangs alone, so rings that need the excluded fragments (e.g. one reusing a body already in the seed, with other overhangs) are never found", extra)
 			case len(extra) > 0:
 				st, why = unknown, fmt.Sprintf("additional conditions %v", extra)
 			case flipped && !hasPal:
